@@ -195,6 +195,13 @@ CLAIMS = {
              'states x 29 reads (attribute, collection iteration / count / len / is_empty / in, get by pk / unique, exists, select with lambda / keyword filters, aggregates, to_dict, joins) '
              'the answer inside the modifying session equals the answer of a new session after the same modifications were committed.',
         note='Agreement of cache-answered lookups with database queries is history-dependent: covered only for the enumerated scripts (bounded). The oracle is pony itself after commit.'),
+    'C15': dict(
+        text='BOUNDED decision table executed end to end on real SQLite with foreign keys enforced: for every relationship shape (one-to-many, one-to-one with the column on either side, '
+             'many-to-many) x cascade_delete option (default / True / False) x reverse side required / optional x dependents present or not x loaded or not x obj.delete() / Query.delete() / '
+             'Query.delete(bulk=True) the real Entity._delete_ / flush / generated schema behave as the property states: cascading dependents are deleted (in the session and in the database), '
+             'optional references are cleared, a required dependent without cascade refuses the delete at the call with ConstraintError (bulk: database error) and nothing changes, and the '
+             'committed database has no dangling reference (PRAGMA foreign_key_check + anti-join). Also the finite table: Attribute.linked default and the ON DELETE clause in the DDL follow the rule.',
+        note='All-bounded: reported as level other, never as proved. Two entities per shape, at most two dependents; SQLite only (ON DELETE behaviour of other servers is their contract).'),
 }
 
 _NOT_BUILT = 'within reach of the technique per DESIGN.md, check not built yet'
